@@ -506,6 +506,7 @@ int main(int argc, char **argv)
     opn++;
     if (!strcmp(tok[0], "CASE")) {
       printf("CASE %s\n", tok[1]);
+      fflush(stdout);
       snprintf(dir, sizeof dir, "%s/d%d", base, caseno++);
       snprintf(cmd, sizeof cmd, "rm -rf '%s'", dir);
       if (system(cmd)) {}
